@@ -370,6 +370,20 @@ class PurityError(Exception):
     pass
 
 
+class Bystanders:
+    """objects that a history copied from, or took a copy of, and then left alone: whatever happens to the object the history
+    goes on with, they must stay as they were (no state shared between a model and its copies)"""
+    def __init__(self):
+        self.objs = []
+
+    def add(self, obj, what):
+        self.objs.append((obj, snapshot(obj), what))
+
+    def changed(self):
+        return ["%s changed although only a copy of it / the model it was copied from was used afterwards"
+                % what for obj, snap, what in self.objs if snapshot(obj) != snap]
+
+
 def pure_call(fn, *args, **kwargs):
     """call fn and verify that no argument was mutated"""
     before = [snapshot(a) for a in args] + [snapshot(v) for v in kwargs.values()]
